@@ -73,14 +73,19 @@ pub struct RxCfg {
     pub prefix_err: u32,
     pub max_invalid: u32,
     pub preamble_err: u32,
+    /// power squelch thresholds (open, close); None = the builder's defaults
+    pub squelch: Option<(f32, f32)>,
 }
 
 pub fn build(cfg: &RxCfg) -> SameReceiver {
-    SameReceiverBuilder::new(cfg.rate)
-        .with_frame_prefix_max_errors(cfg.prefix_err)
+    let mut b = SameReceiverBuilder::new(cfg.rate);
+    b.with_frame_prefix_max_errors(cfg.prefix_err)
         .with_frame_max_invalid(cfg.max_invalid)
-        .with_preamble_max_errors(cfg.preamble_err)
-        .build()
+        .with_preamble_max_errors(cfg.preamble_err);
+    if let Some((open, close)) = cfg.squelch {
+        b.with_squelch_power(open, close);
+    }
+    b.build()
 }
 
 /// How the audio is fed and the iterators are driven
